@@ -268,16 +268,19 @@ def configs(quick):
                             p, r = 1, 1
                     else:
                         # thorough: every stream under the default schedule; the semantically hostile invokes, the boundary truncations and
-                        # the raw garbage under every one-preemption schedule; the representative subset with two reorderings on top
+                        # the raw garbage under every one-preemption schedule; the representative subset with one (two) reorderings on top
                         p, r = 0, 0
                         natural_phase = (phase == "first") == lab.startswith(("C.", "garbage"))
                         medium = natural_phase and ending != "read-then-close" and (
                             (base == "I" and not any(x in lab for x in (".tag", ".ver", ".type", ".ser", ".flags", ".seq", ".dlen", ".alen", ".corr", ".rsv", ".magic", ".trunc", ".twice", ".payload", ".compressed")))
                             or (".trunc@" in lab and int(lab.split("@")[1]) in TRUNC) or lab.startswith("garbage") or ".dlen" in lab or ".alen" in lab)
                         if medium and (server == "multiplex" or pool == "full" or not timeout):
-                            p, r = 1, 1
-                        if lab in ("I.raises-unserialisable", "I.trunc@-1", "C.trunc@39", "garbage.interrupt") and natural_phase and ending != "read-then-close" and (server == "multiplex" or pool == "full"):
-                            p, r = 1, 2
+                            p, r = 1, 0      # every schedule with one preemption
+                        rep = lab in ("I.raises-unserialisable", "I.raises-nasty", "I.trunc@-1", "C.trunc@39", "garbage.interrupt") and natural_phase and ending != "read-then-close"
+                        if rep and ((server == "multiplex" and not timeout) or pool == "full"):
+                            p, r = 1, 1      # ... and one free reordering on top for the representative streams
+                            if lab in ("I.trunc@-1", "garbage.interrupt") and ending == "close" and server == "multiplex":
+                                p, r = 1, 2
                     out.append({"server": server, "timeout": timeout, "pool": pool, "stream": lab, "phase": phase, "ending": ending, "p": p, "r": r, "horizon": 3000})
     return out
 
@@ -286,7 +289,7 @@ def run(ctx):
     cfgs = configs(ctx.quick)
     for lab, ending in (("garbage.interrupt", "close"), ("I.trunc@-1", "reset")) if ctx.quick else (("garbage.interrupt", "close"), ("I.trunc@-1", "reset"), ("I.raises-unserialisable", "close"), ("C.trunc@39", "reset")):
         cfgs.append({"server": "thread", "timeout": 0.0, "pool": "roomy", "stream": lab, "phase": "first" if not lab.startswith("I.") else "after-handshake", "ending": ending,
-                     "order": "attacker-first", "watch": "pool", "p": 1, "r": 1 if ctx.quick else 2, "horizon": 6000})
+                     "order": "attacker-first", "watch": "pool", "p": 1, "r": 1, "horizon": 6000})
     stats = explore_parallel(ctx, task, cfgs, lambda c: c["p"], lambda c: c["r"])
     ns = len(attack_streams(ctx.quick))
     cov = coverage_from_stats(
